@@ -39,6 +39,9 @@ import (
 // the private key is encrypted then the given prompter will be invoked to ask
 // for the passphrase, if provided.
 func ParseAnyPrivateKey(blob []byte, prompt passprompt.PasswordGetter) (crypto.PrivateKey, error) {
+	if len(blob) == 0 {
+		return nil, errors.New("private key is empty")
+	}
 	if bytes.HasPrefix(blob, []byte("-----BEGIN PGP")) {
 		return parsePgpPrivateKey(blob, prompt)
 	} else if bytes.HasPrefix(blob, []byte("-----BEGIN")) {
@@ -103,6 +106,9 @@ func parsePgpPrivateKey(blob []byte, prompt passprompt.PasswordGetter) (crypto.P
 		return nil, errors.New("file does not contain a private key")
 	}
 	if entity.PrivateKey.Encrypted {
+		if prompt == nil {
+			return nil, errors.New("private key is encrypted and no password was provided")
+		}
 		fmt.Fprintln(os.Stderr, "Key fingerprint:", entity.PrimaryKey.KeyIdString())
 		for name := range entity.Identities {
 			fmt.Fprintln(os.Stderr, "UID:", name)
